@@ -24,6 +24,11 @@ guards it is part of the acquiring action.  `trace` is a ghost: the global seque
 events (request markers, replies, delivered updates, stores), which is what the harness records from
 the real implementation and what the specification talks about.
 
+Names are strings (character lists): the subscription table is keyed by specifier strings and `unsubscribe`,
+`broadcast_event` are transcribed with their string tests (`':' in`, `startswith(f'{eventname}:')`, exact key,
+`split(':', 1)[0]`), so prefix-related names (`T` / `T2`, `target` / `target_max`) are different keys here exactly
+when they are in the code.  `reset_connection` clears the tables first and switches remote logging off afterwards;
+the latter may raise (`Cfg.logFails`, an oracle), which only changes the reply.
 Quirks kept: a global `deactivate` leaves module / parameter subscriptions alone; `deactivate m`
 also drops `m:p`; `deactivate` of anything unknown answers `inactive`; repeated identical errors are
 not announced; disconnect does not take the dispatcher lock.
@@ -32,8 +37,25 @@ Assumption (harness configuration): `omit_unchanged_within = 0`, i.e. every valu
 namespace Frappy.Activate
 
 abbrev Conn := Nat
-abbrev Mod := Nat
-abbrev Par := Nat
+
+/-- names are strings, as character lists (the dispatcher's tables are keyed by specifier strings and its tests are
+string tests: `':' in`, `startswith`, `split(':', 1)`) -/
+abbrev Name := List Char
+
+def colon : Char := ':'
+
+/-- a module name: the part of a specifier before the first colon, hence without a colon -/
+abbrev Mod := { l : Name // colon ∉ l }
+/-- an exported accessible name: everything after the first colon -/
+abbrev Par := Name
+
+instance : Inhabited Mod := ⟨⟨[], by simp⟩⟩
+
+/-- `f'{modulename}:{pobj.export}'` — the key of a parameter event and of a parameter subscription -/
+def pkey (m : Mod) (p : Par) : Name := m.val ++ colon :: p
+
+/-- `msg[1].split(':', 1)[0]` -/
+def modPart (k : Name) : Name := k.takeWhile (fun ch => ch != colon)
 
 /-- value-or-error held for a parameter (`pobj.value` / `pobj.readerror`) -/
 inductive Entry
@@ -46,6 +68,12 @@ inductive Scope
   | mod (m : Mod)
   | par (m : Mod) (p : Par)
   deriving DecidableEq, Repr, Inhabited
+
+/-- the specifier string of a module / parameter scope (the key of its subscription) -/
+def Scope.key : Scope → Name
+  | .all => []
+  | .mod m => m.val
+  | .par m p => pkey m p
 
 inductive Req
   | activate (s : Scope)
@@ -74,6 +102,9 @@ structure Cfg where
   mods : List Mod
   pars : Mod → List Par
   conns : List Conn
+  /-- oracle: does `set_all_log_levels(conn, 'off')` raise for this connection (remote logging not set up:
+  `ValueError('remote handler not found')`); `reset_connection` calls it AFTER the tables are cleared -/
+  logFails : Conn → Bool := fun _ => false
 
 /-- program counter of a request thread -/
 inductive HPc
@@ -100,8 +131,7 @@ inductive UPc
 
 structure State where
   active : Conn → Bool                       -- `_active_connections`
-  subMod : Mod → Conn → Bool                 -- `_subscriptions[<module>]`
-  subPar : Mod → Par → Conn → Bool           -- `_subscriptions[<module>:<parameter>]`
+  subs : Name → Conn → Bool                  -- `_subscriptions[<module>]`, `_subscriptions[<module>:<parameter>]`
   cache : Mod → Par → Entry
   trace : List Obs
   disp : Option Conn                         -- owner of `Dispatcher._lock` (only request threads take it)
@@ -121,8 +151,7 @@ theorem set_apply {α β : Type} [DecidableEq α] (f : α → β) (a x : α) (b 
 
 def init (hs : Conn → List Req) (us : Nat → List (Mod × Par × Entry)) (cache : Mod → Par → Entry) : State where
   active := fun _ => false
-  subMod := fun _ _ => false
-  subPar := fun _ _ _ => false
+  subs := fun _ _ => false
   cache := cache
   trace := []
   disp := none
@@ -135,7 +164,7 @@ def init (hs : Conn → List Req) (us : Nat → List (Mod × Par × Entry)) (cac
 
 /-- does a message for `m:p` go to `c` (`broadcast_event`) -/
 def listens (σ : State) (c : Conn) (m : Mod) (p : Par) : Bool :=
-  σ.active c || σ.subMod m c || σ.subPar m p c
+  σ.subs (pkey m p) c || σ.subs (modPart (pkey m p)) c || σ.active c
 
 def listeners (cfg : Cfg) (σ : State) (m : Mod) (p : Par) : List Conn :=
   cfg.conns.filter (fun c => listens σ c m p)
@@ -164,30 +193,40 @@ def afterSnap (s : Scope) : List Mod → HPc
   | [] => .relDisp (.activate s) true
   | m :: rest => .wantUpd s m rest
 
-/-- where a request thread continues after the table change -/
-def afterTable (cfg : Cfg) : Req → HPc
+/-- where the request thread of `c` continues after the table change; for `*IDN?` the logging switch-off that
+follows may raise, which turns the reply into an error report -/
+def afterTable (cfg : Cfg) (c : Conn) : Req → HPc
   | .activate s => afterSnap s (scopeMods cfg s)
   | .disconnect => .idle
+  | .ident => .relDisp .ident (!cfg.logFails c)
   | r => .relDisp r true
 
-/-- `subscribe` / `_active_connections.add` -/
+/-- `subscribe(conn, eventname)`: `self._subscriptions.setdefault(eventname, set()).add(conn)` -/
+def subscribe (σ : State) (c : Conn) (ev : Name) : State :=
+  { σ with subs := fun k c' => if k = ev ∧ c' = c then true else σ.subs k c' }
+
+/-- which keys `unsubscribe(conn, eventname)` discards the connection from:
+`if ':' not in eventname:` every key `k.startswith(f'{eventname}:')`; and the key `eventname` itself -/
+def unsubKeys (ev k : Name) : Bool :=
+  (!ev.contains colon && (ev ++ [colon]).isPrefixOf k) || k == ev
+
+def unsubscribe (σ : State) (c : Conn) (ev : Name) : State :=
+  { σ with subs := fun k c' => if unsubKeys ev k = true ∧ c' = c then false else σ.subs k c' }
+
+/-- `handle_activate`: `subscribe(conn, specifier)` / `_active_connections.add(conn)` -/
 def register (σ : State) (c : Conn) : Scope → State
   | .all => { σ with active := fun c' => if c' = c then true else σ.active c' }
-  | .mod m => { σ with subMod := fun m' c' => if m' = m ∧ c' = c then true else σ.subMod m' c' }
-  | .par m p => { σ with subPar := fun m' p' c' => if m' = m ∧ p' = p ∧ c' = c then true else σ.subPar m' p' c' }
+  | s => subscribe σ c s.key
 
-/-- `unsubscribe` / `_active_connections.discard` -/
+/-- `handle_deactivate`: `unsubscribe(conn, specifier)` / `_active_connections.discard(conn)` -/
 def unregister (σ : State) (c : Conn) : Scope → State
   | .all => { σ with active := fun c' => if c' = c then false else σ.active c' }
-  | .mod m => { σ with subMod := fun m' c' => if m' = m ∧ c' = c then false else σ.subMod m' c',
-                       subPar := fun m' p' c' => if m' = m ∧ c' = c then false else σ.subPar m' p' c' }
-  | .par m p => { σ with subPar := fun m' p' c' => if m' = m ∧ p' = p ∧ c' = c then false else σ.subPar m' p' c' }
+  | s => unsubscribe σ c s.key
 
-/-- `reset_connection` -/
+/-- `reset_connection` (the table part) -/
 def resetConn (σ : State) (c : Conn) : State :=
   { σ with active := fun c' => if c' = c then false else σ.active c',
-           subMod := fun m' c' => if c' = c then false else σ.subMod m' c',
-           subPar := fun m' p' c' => if c' = c then false else σ.subPar m' p' c' }
+           subs := fun k c' => if c' = c then false else σ.subs k c' }
 
 def tableWrite (σ : State) (c : Conn) : Req → State
   | .activate s => register σ c s
@@ -222,9 +261,9 @@ def stepH (cfg : Cfg) (σ : State) (c : Conn) : Option State :=
       some { tableWrite σ c r with sub := some (.h c), hpc := set σ.hpc c (.relSub r) }
     else none
   | .relSub r =>
-    some { σ with sub := none, hpc := set σ.hpc c (afterTable cfg r),
+    some { σ with sub := none, hpc := set σ.hpc c (afterTable cfg c r),
                   hscript := if r = .disconnect then set σ.hscript c [] else σ.hscript,
-                  trace := if r = .disconnect then σ.trace ++ [.reply c r true] else σ.trace }
+                  trace := if r = .disconnect then σ.trace ++ [.reply c r (!cfg.logFails c)] else σ.trace }
   | .wantUpd s m rest =>
     if σ.upd m = none then
       some { σ with upd := set σ.upd m (some (.h c)), hpc := set σ.hpc c (.snapMod s m (scopePars cfg s m) rest) }
